@@ -13,6 +13,7 @@ PATTERN_PAIRS = [("", ""), ("a", ""), ("ab", ""), ("abc", ""), ("b", ""), ("x", 
 # display names (used in oracle messages): "col0" for the one-column entries, "col0|col1" otherwise
 PATTERNS = [a if not b else "%s|%s" % (a, b) for a, b in PATTERN_PAIRS]
 NTEXTS = 24
+NCOLS = 2     # matcher columns the harness configures (Nucleo::new(.., 2))
 
 TRUSTED = ["interleavings at the granularity of the cfg(nucleo_verif) yield points in tick_inner / Worker::run / Injector::push / Injector::extend (the worker's state is only touched under its mutex, so finer interleavings differ only in what the scan sees, which the model over-approximates with a parameter)",
            "the scheduler harness (harness/hn/src/sched.rs, nucleo_cmd.rs) parks the UI thread, the single pool thread and injector threads at the yield points; timeouts are scheduler decisions (timeout 0 while the run is parked = 'tick times out')",
@@ -39,8 +40,8 @@ def table(ctx):
 
 
 def histories(ctx, count=None, extra_seed=0):
-    # 15 styles, taken in turn: 25 histories of each in the quick tier
-    n = count or (375 if ctx["tier"] == "quick" else 5000)
+    # 16 styles, taken in turn: 25 histories of each in the quick tier
+    n = count or (400 if ctx["tier"] == "quick" else 5000)
     # the generator walks the model with the real score table (the worker path of a run, hence tick's `running`,
     # depends on whether the current pattern has matches)
     tpath = table(ctx)[0]
@@ -91,7 +92,8 @@ def parse_obs(o):
     ds = [] if d["d"] == "-" else d["d"].split(",")
     # g: Snapshot::get_item(i) for i = 0..7 (data of the item, None where get_item returned None); absent in old replays
     gs = [None if x == "-" else x for x in d["g"].split(",")] if "g" in d else []
-    return {"p": int(d["p"]), "c": int(d["c"]), "m": ms, "d": ds, "inj": int(d["inj"]), "n": int(d["n"]), "u": int(d.get("u", 0)), "g": gs}
+    # k: number of matcher columns of the items the snapshot handed out (the configured 2, or the first other value seen); absent in old replays
+    return {"p": int(d["p"]), "c": int(d["c"]), "m": ms, "d": ds, "inj": int(d["inj"]), "n": int(d["n"]), "u": int(d.get("u", 0)), "g": gs, "k": int(d.get("k", NCOLS))}
 
 
 class Track:
@@ -184,7 +186,7 @@ def generic(ctx, oracle, rule, nhist=None, extra_seed=0):
     return res
 
 
-RULE = ("model-guided random walks over a Nucleo with TWO matcher columns (the extracted protocol model enumerates the ENABLED events; 15 styles: general, writers parked between reservation and publication, restart-heavy, "
+RULE = ("model-guided random walks over a Nucleo with TWO matcher columns (the extracted protocol model enumerates the ENABLED events; 16 styles: general, writers parked between reservation and publication, restart-heavy, "
         "zero-timeout ticks racing the end of the run, no initial items, cancel-heavy, retype = the worker settles on a pattern and the history ends with a non-append edit directly "
         "followed by an append edit, stale run at restart = a finished but uncollected run, restart, a zero-timeout tick that times out on the first run over the new stream, observations, "
         "bulk = the history starts with one or two Injector::extend calls of 25-60 items cycling through a few pool texts so that more than 20 matches tie on (score, total length) interleaved with others, "
@@ -194,11 +196,13 @@ RULE = ("model-guided random walks over a Nucleo with TWO matcher columns (the e
         "run completes inside tick = the ticking thread parked at tick.after_spawn (directly after ThreadPool::spawn) while the spawned run goes all the way to the end of its closure, then the rest of the tick, "
         "tick blocks on the worker lock = a run parked holding the lock, a restart (or an edit), a tick stepped INTO the blocking lock acquisition of the cancelling branch - the scheduler checks that the ticking thread does NOT reach "
         "another yield point while the run holds the lock and that it arrives at tick.before_spawn as soon as the run has released it, "
-        "rescore run cancelled before it starts = the worker settled on P0, a non-append edit to an unrelated P1 and a zero-timeout tick leave a Rescore run parked at run.start, an extension P2 of P1 typed with append = true, a tick that sets the cancel flag before that run has done anything): "
+        "rescore run cancelled before it starts = the worker settled on P0, a non-append edit to an unrelated P1 and a zero-timeout tick leave a Rescore run parked at run.start, an extension P2 of P1 typed with append = true, a tick that sets the cancel flag before that run has done anything, "
+        "run cancelled between scan and sort then an append edit = items chosen with the score table (some that do not match the pattern P, then some that match an extension P' of P), a zero-timeout tick and one step leave a run parked at run.before_sort whose list holds placeholders "
+        "(the scoring scan over new items after the worker settled on P or over a restarted stream, or the in-place re-scoring of an append edit P0 -> P), P' typed with append = true, a tick that cancels the sort - the list keeps placeholders and unsorted real entries - and the Update run that re-scores that list in place): "
         "injector threads pushing items (Injector::push) or batches (Injector::extend: the whole range reserved at once, published in index order in chunks chosen by the schedule) of a 24-entry pool of (column 0, column 1) texts whose total length differs from the column 0 length, "
         "pattern edits over an 18-entry pool of (column 0, column 1) pattern texts - every column whose text changes is reparsed, with truthful append "
         "flags (the model's single edit event carries 'every changed column was an append', exact because the real status is the maximum over the columns) -, restarts, ticks with timeout 0 or long, each thread parked at every yield point and stepped by the schedule; every history winds down to quiescence (writers finish, "
-        "ticks until running = false). Every observation (tick status, snapshot pattern/count/matches/item data, Snapshot::get_item(i) for i < 8, active_injectors, notify count) is compared with the extracted model "
+        "ticks until running = false). Every observation (tick status, snapshot pattern/count/matches/item data, Snapshot::get_item(i) for i < 8, the number of matcher columns of every item handed out, active_injectors, notify count; every fill callback also checks the number of columns it is handed) is compared with the extracted model "
         "and checked by the property oracle (C13's oracle also compares the lock state reported at the run's post-unlock sites with the model's, and checks what the notify callback saw when a push / extend called it: "
         "the items of that call reserved, counted by injected_items() and readable). Scores (MultiPattern::score over both columns) and TOTAL column lengths come from the harness table. "
         "Non-trivial = history with a background run and at least one writer parked mid-push / mid-extend.")
